@@ -14,6 +14,7 @@ import (
 	"context"
 	"encoding/json"
 	"errors"
+	"fmt"
 	"sort"
 	"strings"
 	"sync"
@@ -184,6 +185,21 @@ type fakeTarget struct {
 	mu    sync.Mutex
 	colls map[string]*dsColl // key db/name
 	calls map[string]int
+	rt    *caseRT
+}
+
+// logLookup records what a lookup of the downstream catalog returned (partition name=id pairs): the recorded
+// finding about a refreshed name cache is only possible when such an answer still carried a dropped partition.
+func (f *fakeTarget) logLookup(kind, coll string, parts map[string]int64) {
+	if f.rt == nil {
+		return
+	}
+	var l []string
+	for k, v := range parts {
+		l = append(l, fmt.Sprintf("%s=%d", k, v))
+	}
+	sort.Strings(l)
+	f.rt.log(evt{Kind: "target-lookup", Note: kind, Key: coll, Shards: l})
 }
 
 func dsKey(db, name string) string {
@@ -205,6 +221,7 @@ func (f *fakeTarget) GetCollectionInfo(ctx context.Context, collectionName, data
 	for k, v := range c.partitions {
 		parts[k] = v
 	}
+	f.logLookup("GetCollectionInfo", collectionName, parts)
 	return &model.CollectionInfo{
 		DatabaseName: databaseName, CollectionID: c.id, CollectionName: collectionName,
 		VChannels: append([]string{}, c.vchannels...), PChannels: append([]string{}, c.pchannels...), Partitions: parts,
@@ -223,6 +240,7 @@ func (f *fakeTarget) GetPartitionInfo(ctx context.Context, collectionName, datab
 	for k, v := range c.partitions {
 		parts[k] = v
 	}
+	f.logLookup("GetPartitionInfo", collectionName, parts)
 	return &model.CollectionInfo{Partitions: parts}, nil
 }
 
